@@ -174,7 +174,7 @@ Section Block.
                 te_snaps e a = option_map abasic_of (s_info st a) -> info_ok cf (s_info st a) i ->
                 option_map strip
                   (match (match option_map (fun v => mkEntry (te_inc e) v (te_est e))
-                                  (if basic_changed (te_snaps e a) i then Some (VBasic (Some (strip i))) else None) with
+                                  (if basic_changed (te_snaps e a) i then Some (VBasic (Some (publish_info i))) else None) with
                           | Some e0 => match e_data e0 with VBasic r => Some (t, r) | _ => None end
                           | None => basic_hit (publish_all bm effs) a t
                           end) with
@@ -192,7 +192,7 @@ Section Block.
                    end = cf (i_hash i0) /\ i_code (fill_from b i0) = Some (cf (i_hash i0))) /\
                 (forall i0,
                    match (match option_map (fun v => mkEntry (te_inc e) v (te_est e))
-                                  (if basic_changed (te_snaps e a) i then Some (VBasic (Some (strip i))) else None) with
+                                  (if basic_changed (te_snaps e a) i then Some (VBasic (Some (publish_info i))) else None) with
                           | Some e0 => match e_data e0 with VBasic r => Some (t, r) | _ => None end
                           | None => basic_hit (publish_all bm effs) a t
                           end) with
